@@ -171,6 +171,12 @@ def gen_c10_case(r, kind=None):
     elif kind == 'xdev':
         GT.mutate(r, c, dict.fromkeys(files, b''), set(), 'xdev-dir') if 'xdev-dir' in GT.MUTATIONS else None
         c.allow_xdev = False
+        if r.random() < 0.35:
+            # the single-path API on an object of the other filesystem (with and without an entry of its own)
+            xds = [(d + '/' if d else '') + 'xd' for d in paths if t.lookup((d + '/' if d else '') + 'xd') is not None]
+            if xds:
+                xd = r.choice(xds)
+                upd = ['update_path', r.choice([xd + '/inner', xd + '/inner', xd + '/.hidden', xd + '/absent', xd]), 'DATA', [c.opts[0]]]
     elif kind == 'loop':
         c.meta['mutations'].append(GT.mutate(r, c, dict.fromkeys(files, b''), set(), 'loop-link'))
     ops = [['files']] + pre + [['files'], upd, ['files'], ['loaded']]
@@ -373,7 +379,10 @@ def cli_update_preserves(ctx):
                 top['size'] = len(top['data'])
             dirs = [d for d in c.meta['dirs'] if d and not d.startswith('.') and '/.' not in d]
             upath = r.choice(dirs) if dirs and r.random() < 0.75 else ''
-            argv = ['gemato', 'update', '--hashes', ' '.join(c.opts[0])] + (['--force-rewrite'] if r.random() < 0.3 else [])
+            cmd = 'create' if r.random() < 0.25 else 'update'
+            if cmd == 'create':
+                upath = ''          # gemato create <top>: the TIMESTAMP is written only when --timestamp is given
+            argv = ['gemato', cmd, '--hashes', ' '.join(c.opts[0])] + (['--force-rewrite'] if r.random() < 0.3 else [])
             b, s = sc.fresh()
             try:
                 t.realise(b, s)
@@ -406,10 +415,10 @@ def cli_update_preserves(ctx):
                 st['dist_entries_kept'] += 1
             ts0 = [e for e in (pm.get('Manifest') or ()) if e[0] == 'TIMESTAMP']
             ts1 = [e for e in (qm.get('Manifest') or ()) if e[0] == 'TIMESTAMP']
-            if upath:
+            if upath or cmd == 'create':
                 if [tuple(map(str, e)) for e in ts0] != [tuple(map(str, e)) for e in ts1]:
                     replay['timestamp_before'], replay['timestamp_after'] = str(ts0), str(ts1)
-                    ctx.violation('spec', f'gemato update {upath} (a sub-directory update without --timestamp) changed the TIMESTAMP of the top-level Manifest', replay)
+                    ctx.violation('spec', f'gemato {cmd} {upath or "<top>"} ({"a sub-directory update" if upath else "create"} without --timestamp) changed the TIMESTAMP of the top-level Manifest', replay)
                 else:
                     st['timestamp_kept'] += 1
             elif str(ts0) != str(ts1):
